@@ -12,6 +12,8 @@ import Driver.C07
 import Driver.C11
 import Driver.DYNBT
 import Driver.C14
+import Driver.C01
+import Driver.C03
 open Driver
 
 def dispatch (op : String) (args : List String) (obs : String) : Option Verdict :=
@@ -28,6 +30,8 @@ def dispatch (op : String) (args : List String) (obs : String) : Option Verdict 
   <|> (Driver.C11.handle op args obs)
   <|> (Driver.DYNBT.handle op args obs)
   <|> (Driver.C14.handle op args obs)
+  <|> (Driver.C01.handle op args obs)
+  <|> (Driver.C03.handle op args obs)
 
 def processLine (line : String) : String :=
   let line := line.trimRight
